@@ -249,4 +249,93 @@ Section Facts.
         assert (forallb (has (blobs s2)) (V k) = true) as ->; [|reflexivity].
         apply forallb_forall. intros b Hin. apply Hb; auto.
   Qed.
+
+  (* ---------- recovery with stacked caches: the computation of an entry may read other disk entries ---------- *)
+  Lemma srun_cinv n : forall c, CInv c -> CInv (fst (srun V D n c)).
+  Proof.
+    induction n as [|n IH]; intros c H; cbn [srun]; [exact H|].
+    pose proof (proj1 (sstep_cinv c H)) as H1. destruct (sstep V D c) as [c1 o1]. cbn [fst] in H1.
+    specialize (IH c1 H1). destruct (srun V D n c1) as [c2 o2]. exact IH.
+  Qed.
+
+  (* an uninterrupted write of an entry whose index is not truncated ends with the entry readable *)
+  Lemma write_completes k s rest : Inv s -> index s k <> ITorn ->
+    exists n s', n <= 4 * length (V k) + 6 /\
+      srun V D n {| c_fs := s; c_cur := None; c_todo := IWrite k :: rest |}
+      = ({| c_fs := s'; c_cur := None; c_todo := rest |}, [Answer k (V k) false]) /\
+      fst (read k s') = Hit (V k).
+  Proof.
+    intros Hi Ht.
+    destruct (blobs_phase k (V k) (V k) s 0) as (n & s2 & Hn & Hr & Hi2 & _ & Hb).
+    assert (Hall : forallb (has (blobs s2)) (V k) = true).
+    { apply forallb_forall. intros b Hin. apply Hb; auto. }
+    destruct (Hi k) as [E|[E|E]]; [| |contradiction].
+    - (* no index yet: four more steps *)
+      set (s3 := with_tmps (with_index (with_tmps s2 (S (tmps s2))) k (IGood (V k))) (pred (tmps (with_tmps s2 (S (tmps s2)))))).
+      exists (1 + (n + 4)), s3. split; [lia|]. split.
+      + change (1 + (n + 4)) with (S (n + 4)). cbn [srun]. unfold sstep at 1. cbn [c_cur c_todo c_fs].
+        rewrite srun_add. rewrite (srun_micro k rest n _ _ _ _ Hr eq_refl).
+        cbn [srun]. unfold sstep. cbn [c_cur c_fs c_todo micro]. rewrite Hi2, E. cbn [c_cur c_fs c_todo micro app]. reflexivity.
+      + unfold read. subst s3. cbn [index with_tmps with_index blobs]. rewrite upd_same, Hall. reflexivity.
+    - (* the complete index is already there (written by an earlier, interrupted process): it is matched and kept *)
+      exists (1 + (n + 1)), s2. split; [lia|]. split.
+      + change (1 + (n + 1)) with (S (n + 1)). cbn [srun]. unfold sstep at 1. cbn [c_cur c_todo c_fs].
+        rewrite srun_add. rewrite (srun_micro k rest n _ _ _ _ Hr eq_refl).
+        cbn [srun]. unfold sstep. cbn [c_cur c_fs c_todo micro]. rewrite Hi2, E, same_mapping_refl. cbn [app]. reflexivity.
+      + unfold read. rewrite Hi2, E, Hall. reflexivity.
+  Qed.
+
+  Variable rank : key -> nat.
+  Hypothesis D_rank : forall k d, In d (D k) -> rank d < rank k.
+
+  Lemma gets_complete : forall r,
+    (forall k, rank k < r -> forall s rest, CInv {| c_fs := s; c_cur := None; c_todo := IGet k :: rest |} ->
+       exists n s' outs, srun V D n {| c_fs := s; c_cur := None; c_todo := IGet k :: rest |}
+                         = ({| c_fs := s'; c_cur := None; c_todo := rest |}, outs) /\ fst (read k s') = Hit (V k)) /\
+    (forall ds, (forall d, In d ds -> rank d < r) -> forall s rest, CInv {| c_fs := s; c_cur := None; c_todo := map IGet ds ++ rest |} ->
+       exists n s' outs, srun V D n {| c_fs := s; c_cur := None; c_todo := map IGet ds ++ rest |}
+                         = ({| c_fs := s'; c_cur := None; c_todo := rest |}, outs)).
+  Proof.
+    induction r as [|r [IHk IHl]].
+    { split; [intros k Hk; lia|]. intros [|d ds] Hd s rest _; [exists 0, s, []; reflexivity|]. specialize (Hd d (or_introl eq_refl)). lia. }
+    assert (Hk : forall k, rank k < S r -> forall s rest, CInv {| c_fs := s; c_cur := None; c_todo := IGet k :: rest |} ->
+       exists n s' outs, srun V D n {| c_fs := s; c_cur := None; c_todo := IGet k :: rest |}
+                         = ({| c_fs := s'; c_cur := None; c_todo := rest |}, outs) /\ fst (read k s') = Hit (V k)).
+    { intros k Hr s rest Hc. destruct (read k s) as [o s1] eqn:E. destruct o as [m|].
+      - destruct (hit_is_complete k s m (proj1 Hc)) as (Hm & _ & Hs); [rewrite E; reflexivity|]. subst m.
+        rewrite E in Hs. cbn in Hs. subst s1.
+        exists 1, s, [Answer k (V k) true]. split; [|rewrite E; reflexivity].
+        cbn [srun]. unfold sstep. cbn [c_cur c_todo c_fs]. rewrite E. reflexivity.
+      - (* a miss: the entries its computation reads, then its own write *)
+        pose proof (proj1 (sstep_cinv _ Hc)) as Hc1. unfold sstep in Hc1. cbn [c_cur c_todo c_fs] in Hc1. rewrite E in Hc1. cbn [fst] in Hc1.
+        assert (Hdr : forall d, In d (D k) -> rank d < r) by (intros d Hd; pose proof (D_rank k d Hd); lia).
+        destruct (IHl (D k) Hdr s1 (IWrite k :: rest) Hc1) as (n1 & s2 & o1 & Hr1).
+        pose proof (srun_cinv n1 _ Hc1) as Hc2. rewrite Hr1 in Hc2. cbn [fst] in Hc2.
+        destruct (write_completes k s2 rest (proj1 Hc2)) as (n2 & s3 & _ & Hr2 & Hread).
+        { apply (proj1 (proj2 Hc2)). unfold pending. cbn. left. reflexivity. }
+        exists (1 + (n1 + n2)), s3, (o1 ++ [Answer k (V k) false]). split; [|exact Hread].
+        change (1 + (n1 + n2)) with (S (n1 + n2)). cbn [srun]. unfold sstep at 1. cbn [c_cur c_todo c_fs]. rewrite E.
+        rewrite srun_add, Hr1, Hr2. reflexivity. }
+    split; [exact Hk|].
+    induction ds as [|d ds IHd]; intros Hd s rest Hc; [exists 0, s, []; reflexivity|]. cbn [map app] in *.
+    destruct (Hk d (Hd d (or_introl eq_refl)) s (map IGet ds ++ rest) Hc) as (n1 & s1 & o1 & Hr1 & _).
+    pose proof (srun_cinv n1 _ Hc) as Hc1. rewrite Hr1 in Hc1. cbn [fst] in Hc1.
+    destruct (IHd (fun x Hx => Hd x (or_intror Hx)) s1 rest Hc1) as (n2 & s2 & o2 & Hr2).
+    exists (n1 + n2), s2, (o1 ++ o2). rewrite srun_add, Hr1, Hr2. reflexivity.
+  Qed.
+
+  (* never permanently unusable, with any acyclic nesting of disk caches *)
+  Theorem get_completes_nested k s : Inv s ->
+    exists n c' outs, srun V D n {| c_fs := s; c_cur := None; c_todo := [IGet k] |} = (c', outs) /\
+      finished c' = true /\ Forall ok_ans outs /\ fst (read k (c_fs c')) = Hit (V k).
+  Proof.
+    intros Hi.
+    destruct (proj1 (gets_complete (S (rank k))) k ltac:(lia) s [] (start_cinv s [k] Hi)) as (n & s' & outs & Hr & Hread).
+    exists n, {| c_fs := s'; c_cur := None; c_todo := [] |}, outs. split; [exact Hr|]. split; [reflexivity|]. split; [|exact Hread].
+    assert (Hgen : forall n c, CInv c -> Forall ok_ans (snd (srun V D n c))).
+    { clear. induction n as [|n IH]; intros c H; cbn [srun]; [constructor|].
+      destruct (sstep_cinv c H) as [H1 H2]. destruct (sstep V D c) as [c1 o1]. cbn [fst snd] in *.
+      specialize (IH c1 H1). destruct (srun V D n c1) as [c2 o2]. cbn [snd] in *. apply Forall_app. split; assumption. }
+    specialize (Hgen n _ (start_cinv s [k] Hi)). cbn [map] in Hgen. rewrite Hr in Hgen. exact Hgen.
+  Qed.
 End Facts.
